@@ -71,7 +71,7 @@ def run(rep, ctx):
     fn = [r"mp::ConstraintKeeper::(ComputeValue|ComputeViolations)", r"mp::ComputeValue", r"mp::ComputeValue::.*", r"mp::ComputeViolation",
           r"mp::[A-Za-z_0-9]+::ComputeViolation", r"mp::Violation::Check", r"mp::SolutionChecker::.*",
           r"mp::pre::ValuePresolver::PostsolveSolution", r"mp::ViolSummary::.*",
-          r"mp::VarInfoImpl::(is_at_lb|is_at_ub|is_nonzero|is_positive|bounds_viol|feastol|is_var_int)"]
+          r"mp::VarInfoImpl::[a-z_0-9]+"]
     d = export_closure(depth=1, roots=r"^mp::(ConstraintKeeper::ComputeViolations|SolutionChecker::CheckVars|Violation::|pre::ValuePresolver::PostsolveSolution)", unit=U, fn=fn, enum=[r"mp::Context::CtxVal", r"mp::sol::Status"], repo=repo)
     cg = export(U, callgraph=True, repo=repo)["callgraph"]
     F = Facts([d])
@@ -419,7 +419,45 @@ def run(rep, ctx):
             ifs = [x for s in sec for x in walk(s) if x["k"] == "IfStmt"]
             conds[nm] = xrender(f, kids(ifs[0])[0]).replace(" ", "") if ifs else None
         FLAG, VALID = "x[GetResultVar()]>=0.5", "viol.viol_<=0"
-        g1.check(conds == {"CTX_MIX": FLAG + "==" + VALID, "CTX_POS": FLAG + "<=" + VALID, "CTX_NEG": FLAG + ">=" + VALID}, "conditional|cases",
+        okcc = conds == {"CTX_MIX": FLAG + "==" + VALID, "CTX_POS": FLAG + "<=" + VALID, "CTX_NEG": FLAG + ">=" + VALID}
+        if not okcc:
+            # the cases are written with other operators: evaluated for every (context, flag value, inner violation) sample
+            okcc, conds = True, {}
+            for nm in ("CTX_MIX", "CTX_POS", "CTX_NEG"):
+                for xb_ in (0.0, 0.49, 0.5, 1.0):
+                    for v_ in (-1.0, 0.0, 2.0):
+                        box = {}
+
+                        def atom(t_, n_, env_, nm=nm, xb_=xb_, v_=v_):
+                            t_ = t_.replace("this->", "")
+                            if t_.endswith("GetContext().GetValue()"):
+                                return ctx_vals[nm]
+                            if n_["k"] in ("CXXOperatorCallExpr", "ArraySubscriptExpr") and "GetResultVar()" in t_:
+                                return xb_
+                            if n_["k"] == "MemberExpr" and n_.get("name") == "viol_":
+                                return v_
+                            if n_["k"] == "MemberExpr" and n_.get("name") == "valX_":
+                                return 7.0
+                            if n_["k"] == "CallExpr" and (n_.get("callee") or "").split("::")[-1] in ("fabs", "abs") and len(call_args(n_)) == 1:
+                                return abs(box["mi"].expr(call_args(n_)[0], env_, 0))
+                            if n_["k"] == "InitListExpr" or (n_["k"] in ("CXXConstructExpr", "CXXTemporaryObjectExpr") and "Violation" in (n_.get("callee") or n_.get("ct") or "")):
+                                ks_ = [x for x in kids(n_) if x is not None]
+                                if ks_:
+                                    return box["mi"].expr(ks_[0], env_, 0)
+                            return None
+                        mi = MiniInt(F, atom)
+                        box["mi"] = mi
+                        try:
+                            got_ = mi.call(f, [("obj", None, None)])
+                        except AnalysisBroken as e_:
+                            raise AnalysisBroken("C07.G1: ConditionalConstraint::ComputeViolation: %s" % e_)
+                        flag_, valid_ = xb_ >= 0.5, v_ <= 0.0
+                        want_ = {"CTX_MIX": 0.0 if flag_ == valid_ else abs(v_), "CTX_POS": 0.0 if (not flag_ or valid_) else v_,
+                                 "CTX_NEG": 0.0 if (flag_ or not valid_) else -v_}[nm]
+                        if got_ != want_:
+                            okcc = False
+                            conds[nm] = "flag value %s, inner violation %s: %s instead of %s" % (xb_, v_, got_, want_)
+        g1.check(okcc, "conditional|cases",
                  short_loc(f.loc), "conditional constraints: MIX needs b <=> c, POS b => c, NEG c => b", str(conds))
         hv = {v["name"]: nt(render(kids(v)[0])) for v in f.walk() if v["k"] == "VarDecl" and kids(v)}
         g1.check(hv.get("ccon_valid") == "viol.viol_<=0" and hv.get("has_arg") == "x[GetResultVar()]>=0.5", "conditional|inputs", short_loc(f.loc),
